@@ -240,20 +240,32 @@ func DecodeStream(r Getter, path *CycleCheck, x *Stream) (io.ReadCloser, error) 
 			applyCrypt = false
 		}
 	}
+	// A filter does not close the reader it reads from, and some layers hold
+	// resources (the DCT decoder runs a producer goroutine until its reader is
+	// closed), so every layer is closed when the caller closes the result.
+	var layers []io.Closer
+	closeLayers := func() {
+		for i := len(layers) - 1; i >= 0; i-- {
+			layers[i].Close()
+		}
+	}
 	if applyCrypt {
 		out, err = x.crypt.Decode(v, out, budget)
 		if err != nil {
 			return nil, src.promote(err)
 		}
+		layers = append(layers, out)
 	}
 
 	for _, fi := range filters {
 		out, err = fi.Decode(v, out, budget)
 		if err != nil {
+			closeLayers()
 			return nil, src.promote(err)
 		}
+		layers = append(layers, out)
 	}
-	return &sourceAwareReader{inner: out, src: src}, nil
+	return &sourceAwareReader{inner: out, src: src, layers: layers}, nil
 }
 
 // sourceErrChecker wraps the raw byte source underlying a decoded PDF
@@ -297,8 +309,9 @@ func (s *sourceErrChecker) promote(err error) error {
 // source error wins, so real IO failures surface to the caller even when
 // an intermediate filter layer has substituted its own content error.
 type sourceAwareReader struct {
-	inner io.ReadCloser
-	src   *sourceErrChecker
+	inner  io.ReadCloser
+	src    *sourceErrChecker
+	layers []io.Closer // all filter layers, innermost first; the last one is inner
 }
 
 func (s *sourceAwareReader) Read(p []byte) (int, error) {
@@ -309,7 +322,18 @@ func (s *sourceAwareReader) Read(p []byte) (int, error) {
 	return n, err
 }
 
-func (s *sourceAwareReader) Close() error { return s.inner.Close() }
+func (s *sourceAwareReader) Close() error {
+	if len(s.layers) == 0 {
+		return s.inner.Close()
+	}
+	var err error
+	for i := len(s.layers) - 1; i >= 0; i-- {
+		if e := s.layers[i].Close(); e != nil && err == nil {
+			err = e
+		}
+	}
+	return err
+}
 
 // GetFilters extracts the information contained in the /Filter and
 // /DecodeParms entries of a stream dictionary.
